@@ -1,19 +1,28 @@
 #!/bin/bash
-# confirm one seeded change produced in /tmp/wt_<id> + /tmp/seed_out/<id>, then try the checks on it
+# confirm one seeded change (/tmp/seed_out/<id>/patch.diff + demo) in the isolated worktree /tmp/wt_confirm,
+# then try the checks on /repo with the patch applied (and undo it)
 # usage: confirm_seed.sh <ID> [props to check...]
 id=$1; shift; props=${@:-$id}
-wt=/tmp/wt_$id; out=/tmp/seed_out/$id
-echo "== patch"; cat $out/patch.diff | head -60
-echo "== tests in worktree (with change)"
-(cd $wt && cmake --build _build -j16 2>&1 | tail -1 && rm -rf _build/occa/cache && ctest --test-dir _build -j8 --timeout 900 2>&1 | tail -3)
-if [ -f $out/demo.cpp ]; then
+wt=/tmp/wt_confirm; out=/tmp/seed_out/$id
+git -C $wt checkout -q -- . ; git -C $wt clean -fdq -e _build
+echo "== patch"; head -50 $out/patch.diff
+git -C $wt apply $out/patch.diff || { echo "PATCH DOES NOT APPLY to a clean tree"; exit 1; }
+git -C $wt status --short | grep -v _build
+echo "== build + tests in isolated worktree WITH the change"
+(cd $wt && cmake --build _build -j16 2>&1 | grep -E "error|FAILED" | head; rm -rf _build/occa/cache; ctest --test-dir _build -j8 --timeout 900 2>&1 | tail -3)
+demo=""
+[ -f $out/demo.cpp ] && demo=$out/demo.cpp
+if [ -n "$demo" ]; then
   echo "== demo WITH change"
-  g++ -std=c++17 -g -I$wt/include -I$wt/_build/include -I$wt/src $out/demo.cpp -o $out/demo_with -L$wt/_build/lib -locca -Wl,-rpath,$wt/_build/lib -fopenmp && (rm -rf $out/cache1; OCCA_CACHE_DIR=$out/cache1 timeout 300 $out/demo_with | tail -5; echo "exit=$?")
+  g++ -std=c++17 -g -I$wt/include -I$wt/_build/include -I$wt/src $demo -o $out/demo_with -L$wt/_build/lib -locca -Wl,-rpath,$wt/_build/lib -fopenmp -ldl && (rm -rf $out/cache1; cd $out; OCCA_CACHE_DIR=$out/cache1 timeout 600 $out/demo_with > $out/with.txt 2>&1; echo "exit=$?"; tail -4 $out/with.txt | cut -c1-200)
   echo "== demo WITHOUT change (against /repo/_build)"
-  g++ -std=c++17 -g -I/repo/include -I/repo/_build/include -I/repo/src $out/demo.cpp -o $out/demo_without -L/repo/_build/lib -locca -Wl,-rpath,/repo/_build/lib -fopenmp && (rm -rf $out/cache2; OCCA_CACHE_DIR=$out/cache2 timeout 300 $out/demo_without | tail -5; echo "exit=$?")
+  g++ -std=c++17 -g -I/repo/include -I/repo/_build/include -I/repo/src $demo -o $out/demo_without -L/repo/_build/lib -locca -Wl,-rpath,/repo/_build/lib -fopenmp -ldl && (rm -rf $out/cache2; cd $out; OCCA_CACHE_DIR=$out/cache2 timeout 600 $out/demo_without > $out/without.txt 2>&1; echo "exit=$?"; tail -3 $out/without.txt | cut -c1-200)
+elif [ -f $out/demo.sh ]; then
+  echo "== demo.sh present: run by hand"
 fi
+git -C $wt checkout -q -- .
 echo "== checks on /repo with the patch applied"
-git -C /repo apply $out/patch.diff || { echo "PATCH DOES NOT APPLY"; exit 1; }
-for p in $props; do (cd /verif && VERIF_NO_EVIDENCE=1 ./check $p | grep -v "^VIOLATION" | cut -c1-300 | tail -6); done
+git -C /repo apply $out/patch.diff || { echo "PATCH DOES NOT APPLY to /repo"; exit 1; }
+for p in $props; do (cd /verif && VERIF_NO_EVIDENCE=1 ./check $p | grep -v "^VIOLATION" | cut -c1-300 | tail -5); done
 git -C /repo checkout -- .
 git -C /repo status --short | grep -v _build
